@@ -393,7 +393,7 @@ def static_part(ck, gen):
 
 
 def dynamic_part(ck, gen):
-    before = len(ck.viol) + len(ck.known_hits)
+    before = len(ck.viol)
     import eng  # noqa: F401
     from vtlengine.Exceptions.messages import centralised_messages as live
     n = 2 if ck.quick() else 8
@@ -464,7 +464,7 @@ def dynamic_part(ck, gen):
                 ck.cov['traces_validated_against_impl'] += len(uniq)
             except vlib.DriverError as e:
                 ck.unproved('driver', str(e)[:500])
-    return len(ck.viol) + len(ck.known_hits) > before
+    return len(ck.viol) > before
 
 
 def replay(ck):
